@@ -106,7 +106,8 @@ Definition trace_obs (tr : list tev) : list tev :=
 (* the predefined messages of the configuration are constants: they also reach prompts as
    few-shot examples (bot_message_index), so they are left out of the comparison *)
 Definition is_const (t : string) : bool :=
-  String.eqb t refusal_c || String.eqb t refusal_out_c || String.eqb t predef_c.
+  String.eqb t refusal_c || String.eqb t refusal_out_c || String.eqb t predef_c ||
+  String.eqb t "" || String.eqb t "  ".     (* empty / blank texts carry no marker *)
 Definition no_consts (l : list string) : list string := filter (fun t => negb (is_const t)) l.
 
 Definition obs_match (m : tev) (o : obs) : bool :=
